@@ -29,6 +29,62 @@ pub enum AOp {
     Reindex,
     /// one `update_files_by_uri` batch submitting variant 0 of these files
     Batch(Vec<usize>),
+    /// config reload: switch to `configs[k]`
+    Config(usize),
+}
+
+/// one configuration of the analysis (what a config reload changes)
+#[derive(Clone, Debug, PartialEq)]
+pub struct CfgSpec {
+    pub strict: bool,
+    /// `workspace.moduleMap` (regex pattern, replacement)
+    pub module_map: Vec<(String, String)>,
+    pub extensions: Vec<String>,
+    pub require_pattern: Vec<String>,
+    pub require_like: Vec<String>,
+    /// main workspace root (under `/ws`), library roots
+    pub root: String,
+    pub libraries: Vec<String>,
+}
+
+impl CfgSpec {
+    pub fn base(strict: bool) -> CfgSpec {
+        CfgSpec { strict, module_map: vec![], extensions: vec![], require_pattern: vec![], require_like: vec![], root: ROOT.to_string(), libraries: vec![] }
+    }
+    pub fn to_json(&self) -> Value {
+        json!({"strict": self.strict, "module_map": self.module_map, "extensions": self.extensions, "require_pattern": self.require_pattern,
+               "require_like": self.require_like, "root": self.root, "libraries": self.libraries})
+    }
+    pub fn from_json(v: &Value) -> CfgSpec {
+        let strs = |k: &str| v[k].as_array().map(|a| a.iter().filter_map(|x| x.as_str().map(|s| s.to_string())).collect::<Vec<_>>()).unwrap_or_default();
+        CfgSpec {
+            strict: v["strict"].as_bool().unwrap_or(false),
+            module_map: v["module_map"].as_array().map(|a| a.iter().filter_map(|p| Some((p.get(0)?.as_str()?.to_string(), p.get(1)?.as_str()?.to_string()))).collect()).unwrap_or_default(),
+            extensions: strs("extensions"),
+            require_pattern: strs("require_pattern"),
+            require_like: strs("require_like"),
+            root: v["root"].as_str().unwrap_or(ROOT).to_string(),
+            libraries: strs("libraries"),
+        }
+    }
+    pub fn emmyrc(&self) -> emmylua_code_analysis::Emmyrc {
+        let mut rc = emmylua_code_analysis::Emmyrc::default();
+        rc.strict.require_path = self.strict;
+        rc.workspace.module_map = self.module_map.iter().map(|(p, r)| emmylua_code_analysis::EmmyrcWorkspaceModuleMap { pattern: p.clone(), replace: r.clone() }).collect();
+        rc.runtime.extensions = self.extensions.clone();
+        rc.runtime.require_pattern = self.require_pattern.clone();
+        rc.runtime.require_like_function = self.require_like.clone();
+        rc
+    }
+    /// a config reload on a running analysis: new Emmyrc, workspace roots recomputed
+    pub fn apply(&self, a: &mut EmmyLuaAnalysis) {
+        a.update_config(std::sync::Arc::new(self.emmyrc()));
+        a.clear_non_std_workspaces();
+        a.add_main_workspace(PathBuf::from(&self.root));
+        for l in &self.libraries {
+            a.add_library_workspace(&emmylua_code_analysis::WorkspaceFolder::new(PathBuf::from(l), true));
+        }
+    }
 }
 
 #[derive(Clone, Debug)]
@@ -42,6 +98,8 @@ pub struct WsCase {
     pub probe: Option<String>,
     /// `strict.requirePath` (true = no fuzzy require resolution)
     pub strict: bool,
+    /// configurations `AOp::Config(k)` switches to (k indexes this list)
+    pub configs: Vec<CfgSpec>,
 }
 
 impl WsCase {
@@ -54,6 +112,7 @@ impl WsCase {
             "initial": self.initial,
             "probe": self.probe,
             "strict": self.strict,
+            "configs": self.configs.iter().map(|c| c.to_json()).collect::<Vec<_>>(),
             "ops": self.ops.iter().map(|o| match o {
                 AOp::Update(i, v) => json!(["update", i, v]),
                 AOp::Resubmit(i) => json!(["resubmit", i]),
@@ -61,6 +120,7 @@ impl WsCase {
                 AOp::Close(i) => json!(["close", i]),
                 AOp::Reindex => json!(["reindex"]),
                 AOp::Batch(v) => json!(["batch", v]),
+                AOp::Config(k) => json!(["config", k]),
             }).collect::<Vec<_>>(),
         })
     }
@@ -80,11 +140,12 @@ impl WsCase {
                 "remove" => AOp::Remove(n(1)),
                 "close" => AOp::Close(n(1)),
                 "reindex" => AOp::Reindex,
+                "config" => AOp::Config(n(1)),
                 "batch" => AOp::Batch(a.get(1).and_then(|x| x.as_array()).map(|v| v.iter().filter_map(|x| x.as_u64().map(|x| x as usize)).collect()).unwrap_or_default()),
                 _ => return None,
             });
         }
-        Some(WsCase { files, initial, ops, probe: v["probe"].as_str().map(|s| s.to_string()), strict: v["strict"].as_bool().unwrap_or(false) })
+        Some(WsCase { files, initial, ops, probe: v["probe"].as_str().map(|s| s.to_string()), strict: v["strict"].as_bool().unwrap_or(false), configs: v["configs"].as_array().map(|a| a.iter().map(CfgSpec::from_json).collect()).unwrap_or_default() })
     }
 }
 
@@ -112,11 +173,13 @@ pub struct Sim {
     pub a: EmmyLuaAnalysis,
     /// current content per file index (None = not present)
     pub current: Vec<Option<String>>,
+    /// the configuration in force
+    pub cfg: CfgSpec,
 }
 
 impl Sim {
     pub fn new(n: usize, strict: bool) -> Sim {
-        Sim { a: new_analysis_cfg(strict), current: vec![None; n] }
+        Sim { a: new_analysis_cfg(strict), current: vec![None; n], cfg: CfgSpec::base(strict) }
     }
     pub fn initial(&mut self, c: &WsCase) {
         let batch: Vec<(Uri, Option<String>)> =
@@ -149,6 +212,12 @@ impl Sim {
                 }
             }
             AOp::Reindex => self.a.reindex(),
+            AOp::Config(k) => {
+                if let Some(spec) = c.configs.get(*k) {
+                    spec.apply(&mut self.a);
+                    self.cfg = spec.clone();
+                }
+            }
             AOp::Batch(v) => {
                 let batch: Vec<(Uri, Option<String>)> = v.iter().map(|&i| (uri_of(&c.files[i].0), Some(c.files[i].1[0].clone()))).collect();
                 for &i in v {
@@ -211,6 +280,15 @@ fn norm_type(t: &str) -> String {
     let mut inner: Vec<&str> = lines[1..lines.len() - 1].to_vec();
     inner.sort();
     format!("{}\n{}\n{}", lines[0], inner.join("\n"), lines[lines.len() - 1])
+}
+
+/// fresh analysis under a configuration
+pub fn fresh_cfg(files: &[(String, String)], spec: &CfgSpec) -> EmmyLuaAnalysis {
+    let mut a = EmmyLuaAnalysis::new();
+    spec.apply(&mut a);
+    let batch: Vec<(Uri, Option<String>)> = files.iter().map(|(n, t)| (uri_of(n), Some(t.clone()))).collect();
+    a.update_files_by_uri(batch);
+    a
 }
 
 /// a fresh analysis of the same files whose hash maps have a different insertion history (two scratch files are
@@ -596,6 +674,17 @@ fn piece(rng: &mut Rng, k: usize, nfiles: usize, disjoint: bool, mods: &[String]
     // split classes are declared `(partial)` in every file (the documented way); a plain duplicate
     // declaration (a `duplicate-type` diagnostic) is kept as a rare malformed case
     let pc = if rng.chance(9, 10) { format!("(partial) {c}") } else { c.to_string() };
+    if rng.chance(1, 14) {
+        // an annotated global defined here / a local in a file that may declare no type itself, inferred from it
+        return if rng.chance(1, 2) {
+            format!("---@type {}\nGd{other} = nil\n", if rng.chance(1, 2) { "integer" } else { "string" })
+        } else {
+            format!("local t{k} = Gd{k}\nprint(t{k})\nlocal u{k} = Gd{other}\nprint(u{k})\n")
+        };
+    }
+    if rng.chance(1, 20) {
+        return format!("local i{k} = import(\"{other_mod}\")\nprint(i{k}.value)\n");
+    }
     let npieces = if rng.chance(1, 12) { 17 } else { 16 };
     match rng.below(npieces) {
         16 => format!("---@class {pc}\nlocal r{k} = require(\"{other_mod}\")\nprint(r{k}.value)\n"),
